@@ -16,7 +16,8 @@ RULE = ("configurations: matrix sizes n=2..5 x batch shapes (),(1,),(3,),(63,),(
         "with at least two entries not in {0,1,-1}; distinct by operand digest.")
 SHARDS = (8, 16)
 REQUIRED = ["det", "adjugate", "inv", "null_space", "orth", "roots", "is_multiple", "hat_matrix", "matmul", "outer"]
-ASSUMPTIONS = ["Fraction arithmetic exact", "numpy.roots / einsum used as independent references are correct", "LAPACK singular-matrix behaviour not judged"]
+ASSUMPTIONS = ["Fraction arithmetic exact", "numpy.roots / einsum used as independent references are correct", "LAPACK singular-matrix behaviour not judged",
+               "roots: real coefficients (the trigonometric Cardano formulas use np.cbrt); a triple root may be reported once; double roots are accurate to sqrt(eps)"]
 EXHAUSTIVE = {"quick": ["all (n, batch shape, dtype) combinations of the configuration table for det/adjugate/inv"],
               "thorough": ["all (n, batch shape, dtype) combinations of the configuration table for det/adjugate/inv",
                            "all ordered pairs of {-2..2}^3 and {-1,0,1}^4 for is_multiple"]}
